@@ -31,7 +31,7 @@ def exec_sites(ctx):
 def run(ctx):
     P = ctx.P
     r1 = ctx.inst("C07.R1", "message inventory: only cw20 {Transfer,TransferFrom,Send,Mint,Burn}, pair Swap / decimals update, router self-messages, Wasm Instantiate/Migrate, Bank::Send are ever built; "
-                            "every Wasm::Execute matches an allowed (target, payload, funds) template; no other producer of message values", floor=40)
+                            "every Wasm::Execute matches an allowed (target, payload, funds) template; no other producer of message values", floor=34)
     r2 = ctx.inst("C07.R2", "Mint / Burn only in the provide / withdraw handlers, addressed to the pair's LP token", floor=3)
     r3 = ctx.inst("C07.R3", "the only TransferFrom: owner = transaction sender, recipient = the pair itself, in the provide handler", floor=1)
     r4 = ctx.inst("C07.R4", "router hop: amount = router's own balance of the offer asset; attached funds = that coin; pair target from the factory's answer; no TransferFrom in the router", floor=4)
